@@ -369,7 +369,11 @@ def run(chk, ctx):
             if o_.kind != 'raise' or o_.exc.primitive or \
                     o_.exc.type_name != 'ValueError':
                 continue
-            if any(c.endswith('.validate') for c in o_.exc.chain):
+            vshorts = {m_.short for m_ in (
+                prog.find_method(c_, 'validate')
+                for c_ in prog.classes.values()) if m_ is not None}
+            if any(c.endswith('.validate') or c in vshorts
+                   for c in o_.exc.chain):
                 continue
             if o_.exc.site in fm_seen:
                 continue
